@@ -41,7 +41,7 @@ func init() {
 		ID:    "C10",
 		Level: "exploration",
 		Rule: "cases = 2..4 clients x <=28 operations on one swamp (typed int64 records or msgpack bodies), 3..6 keys, persistent (write interval 0/1 s) or in-memory, warm or cold (swamp idle-closed after the preload so that every index is rebuilt under load); " +
-			"readers: Get, GetAll, GetByKeys, GetByIndex (key/creation/update/expiration/value index, both orders, paging), GetByIndexStream (with/without body filter; a scheduling point inside Send), Count, IsKeyExist; writers: Set (new + overwrite), PatchTreasures (2 ops + meta), Delete, ShiftByKeys, ShiftMatching; " +
+			"readers: Get, GetAll, GetByKeys, GetByIndex (key/creation/update/expiration/value index, both orders, paging), GetByIndexStream (with/without body filter; a scheduling point inside Send), GetByIndexStreamFromMany, GetStream, Count, IsKeyExist, Uint32SliceSize, in a third of the cases an event subscriber; writers: Set (new + overwrite), PatchTreasures (3 ops + meta), Delete, ShiftByKeys, ShiftMatching, IncrementInt64 (with metadata) and Uint32SlicePush/Delete on separate unstamped keys; " +
 			"schedules = seeded preemption at every lock/atomic/file operation; oracles: race detector reports (modelled happens-before), panic log, escaped goroutine panic, worker death, hanging request, version consistency of every returned record; " +
 			"non-trivial = a read overlapped a write in simulator event order and at least one preemption happened; distinct = hash of the context-switch trace",
 		Gen: genC10,
@@ -96,7 +96,15 @@ func genC10(seed uint64, tier string) Case {
 		key := int64(r.intn(c10NKeys))
 		if r.intn(10) < wbias {
 			ver++
-			switch r.pick(8, 5, 2, 2, 1) {
+			switch r.pick(8, 5, 2, 2, 1, 2, 2, 1) {
+			case 5:
+				// counter and uint32-set records live next to the versioned ones (their values are not version stamped
+				// and are not judged; they exercise Increment*/Uint32Slice* against the same readers)
+				c.Ops = append(c.Ops, Op{C: cl, K: "inc", A: []int64{int64(r.intn(2))}})
+			case 6:
+				c.Ops = append(c.Ops, Op{C: cl, K: "spush", A: []int64{int64(r.intn(2)), int64(1 + r.intn(5))}})
+			case 7:
+				c.Ops = append(c.Ops, Op{C: cl, K: "sdel", A: []int64{int64(r.intn(2)), int64(1 + r.intn(5))}})
 			case 0:
 				c.Ops = append(c.Ops, Op{C: cl, K: "set", A: []int64{key, ver}})
 			case 1:
@@ -118,7 +126,15 @@ func genC10(seed uint64, tier string) Case {
 			}
 			continue
 		}
-		switch r.pick(5, 4, 2, 6, 4, 1, 1) {
+		switch r.pick(5, 4, 2, 6, 4, 1, 1, 2, 2, 1, 1) {
+		case 7:
+			c.Ops = append(c.Ops, Op{C: cl, K: "streammany", A: []int64{int64(r.intn(4)), int64(r.intn(2))}})
+		case 8:
+			c.Ops = append(c.Ops, Op{C: cl, K: "getstream", A: []int64{int64(1 + r.intn(1<<c10NKeys-1))}})
+		case 9:
+			c.Ops = append(c.Ops, Op{C: cl, K: "ssize", A: []int64{int64(r.intn(2))}})
+		case 10:
+			c.Ops = append(c.Ops, Op{C: cl, K: "getc", A: []int64{int64(r.intn(2))}})
 		case 0:
 			a := []int64{key}
 			if r.chance(1, 2) {
@@ -142,6 +158,9 @@ func genC10(seed uint64, tier string) Case {
 		default:
 			c.Ops = append(c.Ops, Op{C: cl, K: "exist", A: []int64{key}})
 		}
+	}
+	if r.chance(1, 3) {
+		c.Cfg["sub"] = 1 // an event subscriber is attached while the clients run
 	}
 	c.Sched = genSched(r)
 	if c.Sched.PreemptPPM == 0 {
@@ -262,6 +281,61 @@ func (f *c10stream) Send(m *hydrapb.GetByIndexStreamResponse) error {
 	return nil
 }
 
+// c10events records the events one subscriber is sent. The gateway serialises the sends of one subscription with a
+// mutex of its own, which is what orders the appends below for the race detector; a send is a scheduling point.
+type c10events struct {
+	ctx context.Context
+	got []*hydrapb.SubscribeToEventsResponse
+}
+
+func (f *c10events) SetHeader(metadata.MD) error  { return nil }
+func (f *c10events) SendHeader(metadata.MD) error { return nil }
+func (f *c10events) SetTrailer(metadata.MD)       {}
+func (f *c10events) Context() context.Context     { return f.ctx }
+func (f *c10events) RecvMsg(m any) error          { return nil }
+func (f *c10events) Send(m *hydrapb.SubscribeToEventsResponse) error { return f.SendMsg(m) }
+func (f *c10events) SendMsg(m any) error {
+	simrt.Yield(simrt.SiteOther)
+	if r, ok := m.(*hydrapb.SubscribeToEventsResponse); ok {
+		f.got = append(f.got, r)
+	}
+	return nil
+}
+
+type c10many struct {
+	ctx context.Context
+	got []*hydrapb.GetByIndexStreamFromManyResponse
+}
+
+func (f *c10many) SetHeader(metadata.MD) error  { return nil }
+func (f *c10many) SendHeader(metadata.MD) error { return nil }
+func (f *c10many) SetTrailer(metadata.MD)       {}
+func (f *c10many) Context() context.Context     { return f.ctx }
+func (f *c10many) RecvMsg(m any) error          { return nil }
+func (f *c10many) SendMsg(m any) error          { return nil }
+func (f *c10many) Send(m *hydrapb.GetByIndexStreamFromManyResponse) error {
+	simrt.Yield(simrt.SiteOther)
+	f.got = append(f.got, m)
+	return nil
+}
+
+type c10profile struct {
+	ctx context.Context
+	got []*hydrapb.GetStreamResponse
+}
+
+func (f *c10profile) SetHeader(metadata.MD) error  { return nil }
+func (f *c10profile) SendHeader(metadata.MD) error { return nil }
+func (f *c10profile) SetTrailer(metadata.MD)       {}
+func (f *c10profile) Context() context.Context     { return f.ctx }
+func (f *c10profile) RecvMsg(m any) error          { return nil }
+func (f *c10profile) SendMsg(m any) error          { return nil }
+func (f *c10profile) Send(m *hydrapb.GetStreamResponse) error {
+	simrt.Yield(simrt.SiteOther)
+	f.got = append(f.got, m)
+	return nil
+}
+
 // c10ev is one finished request in a client's private log (clients never share memory with each other: the
 // harness must not add happens-before edges between them, nor race itself).
 type c10ev struct {
@@ -296,6 +370,7 @@ func runC10(t *testing.T, c Case) (res Result) {
 		}
 	}
 	logs := make([][]c10ev, maxC+1)
+	var events *c10events
 	var stamp c10stamp
 	stuck := false
 	panicked := ""
@@ -425,6 +500,47 @@ func runC10(t *testing.T, c Case) (res Result) {
 						ev.recs = append(ev.recs, m.Treasure)
 					}
 				}
+			case "inc":
+				by := c10by("u", 0)
+				_, err := gw.IncrementInt64(ctxBg, &hydrapb.IncrementInt64Request{IslandID: 1, SwampName: swamp, Key: fmt.Sprintf("c%d", op.A[0]), IncrementBy: 1,
+					SetIfExist: &hydrapb.IncrementRequestMetadata{UpdatedBy: &by}, SetIfNotExist: &hydrapb.IncrementRequestMetadata{CreatedBy: &by}})
+				fail(err, "IncrementInt64")
+			case "getc":
+				_, err := gw.Get(ctxBg, &hydrapb.GetRequest{Swamps: []*hydrapb.GetSwamp{{IslandID: 1, SwampName: swamp, Keys: []string{fmt.Sprintf("c%d", op.A[0]), fmt.Sprintf("s%d", op.A[0])}}}})
+				fail(err, "Get")
+			case "spush":
+				_, err := gw.Uint32SlicePush(ctxBg, &hydrapb.AddToUint32SlicePushRequest{IslandID: 1, SwampName: swamp, KeySlicePairs: []*hydrapb.KeySlicePair{{Key: fmt.Sprintf("s%d", op.A[0]), Values: []uint32{uint32(op.A[1]), uint32(op.A[1] + 1)}}}})
+				fail(err, "Uint32SlicePush")
+			case "sdel":
+				_, err := gw.Uint32SliceDelete(ctxBg, &hydrapb.Uint32SliceDeleteRequest{IslandID: 1, SwampName: swamp, KeySlicePairs: []*hydrapb.KeySlicePair{{Key: fmt.Sprintf("s%d", op.A[0]), Values: []uint32{uint32(op.A[1])}}}})
+				fail(err, "Uint32SliceDelete")
+			case "ssize":
+				gw.Uint32SliceSize(ctxBg, &hydrapb.Uint32SliceSizeRequest{IslandID: 1, SwampName: swamp, Key: fmt.Sprintf("s%d", op.A[0])}) // "not a slice / no such key" are legal answers
+			case "streammany":
+				it := []hydrapb.IndexType_Type{hydrapb.IndexType_KEY, hydrapb.IndexType_EXPIRATION_TIME, hydrapb.IndexType_CREATION_TIME, hydrapb.IndexType_UPDATE_TIME}[op.A[0]]
+				st := &c10many{ctx: ctxBg}
+				fail(gw.GetByIndexStreamFromMany(&hydrapb.GetByIndexStreamFromManyRequest{Queries: []*hydrapb.SwampQuery{{IslandID: 1, SwampName: swamp, IndexType: it, OrderType: hydrapb.OrderType_Type(op.A[1])}}}, st), "GetByIndexStreamFromMany")
+				for _, m := range st.got {
+					if m.Treasure != nil {
+						ev.recs = append(ev.recs, m.Treasure)
+					}
+				}
+			case "getstream":
+				var keys []string
+				for i := int64(0); i < c10NKeys; i++ {
+					if op.A[0]&(1<<i) != 0 {
+						keys = append(keys, c10key(i))
+					}
+				}
+				st := &c10profile{ctx: ctxBg}
+				fail(gw.GetStream(&hydrapb.GetStreamRequest{Queries: []*hydrapb.ProfileSwampQuery{{IslandID: 1, SwampName: swamp, Keys: keys}}}, st), "GetStream")
+				for _, m := range st.got {
+					for _, tr := range m.Treasures {
+						if tr != nil && tr.IsExist {
+							ev.recs = append(ev.recs, tr)
+						}
+					}
+				}
 			case "count":
 				_, err := gw.Count(ctxBg, &hydrapb.CountRequest{Swamps: []*hydrapb.CountRequest_SwampIdentifier{{IslandID: 1, SwampName: swamp}}})
 				fail(err, "Count")
@@ -433,6 +549,19 @@ func runC10(t *testing.T, c Case) (res Result) {
 				fail(err, "IsKeyExist")
 			}
 			return ev
+		}
+		var subID int32 = -1
+		var cancelSub context.CancelFunc
+		if c.cfg("sub", 0) == 1 {
+			ctx, cancel := context.WithCancel(context.Background())
+			cancelSub = cancel
+			events = &c10events{ctx: ctx}
+			subID = simrt.GoID(func() {
+				gw.SubscribeToEvents(&hydrapb.SubscribeToEventsRequest{IslandID: 1, SwampName: swamp}, events)
+			})
+			for i := 0; i < 50 && !simrt.RawBlocked(subID) && !simrt.GDone(subID); i++ {
+				simrt.Sleep(time.Millisecond)
+			}
 		}
 		var ids []int32
 		for cl := 0; cl <= maxC; cl++ {
@@ -450,6 +579,13 @@ func runC10(t *testing.T, c Case) (res Result) {
 		if !simrt.JoinIDs(ids, 10*time.Minute) {
 			stuck = true
 			return
+		}
+		if subID >= 0 {
+			cancelSub()
+			if !simrt.JoinIDs([]int32{subID}, 2*time.Minute) {
+				stuck = true
+				return
+			}
 		}
 		if e := srv.logs.find("grpc gateway panic"); e != "" {
 			panicked = e
@@ -526,8 +662,8 @@ func runC10(t *testing.T, c Case) (res Result) {
 			isRead = false
 		}
 		for _, tr := range ev.recs {
-			if tr == nil || tr.Key == "zz-anchor" {
-				continue
+			if tr == nil || tr.Key == "zz-anchor" || !strings.HasPrefix(tr.Key, "k") {
+				continue // anchor, counters and uint32 sets carry no version stamp
 			}
 			ovW, ovR := false, false
 			for _, w := range writes {
@@ -553,6 +689,22 @@ func runC10(t *testing.T, c Case) (res Result) {
 					during = "overlapping_write"
 				}
 				add("mixed_version_record_from_"+ev.op.K+"_"+during, "client %d %s%v [events %d..%d] returned %s: %s", ev.op.C, ev.op.K, ev.op.A, ev.call, ev.ret, tr.Key, why)
+			}
+		}
+	}
+	if events != nil {
+		res.count("events_delivered", int64(len(events.got)))
+		for _, m := range events.got {
+			for _, tr := range []*hydrapb.Treasure{m.Treasure, m.DeletedTreasure} {
+				if tr == nil || !strings.HasPrefix(tr.Key, "k") || !tr.IsExist {
+					continue
+				}
+				if m.Status != hydrapb.Status_NEW && m.Status != hydrapb.Status_UPDATED && m.Status != hydrapb.Status_DELETED {
+					continue
+				}
+				if why := stamp.consistent(tr, patchedKey[tr.Key]); why != "" {
+					add("mixed_version_record_in_event_"+m.Status.String(), "subscriber was sent %s for %s: %s", m.Status, tr.Key, why)
+				}
 			}
 		}
 	}
